@@ -76,3 +76,8 @@ M("c05-visibility-walk-own-shield-only", "C05", A, "CancelScope._effectively_can
 M("c05-native-cancel-replacement-tests-carried-exception", "C05", A, "TaskGroup.__aexit__",
   "                        if exc_val is None or (\n                            isinstance(exc_val, CancelledError)\n                            and not is_anyio_cancellation(exc)\n                        ):\n                            exc_val = exc\n\n                if self._tasks:",
   "                        if exc_val is None or (\n                            isinstance(exc_val, CancelledError)\n                            and not is_anyio_cancellation(exc_val)\n                        ):\n                            exc_val = exc\n\n                if self._tasks:", ["R05-h"])
+
+# from seeded change C04/i (round 5): the must-direction of the replacement rule
+M("c05-native-after-anyio-dropped", "C05", A, "TaskGroup.__aexit__",
+  "                                if exc_val is None or (\n                                    isinstance(exc_val, CancelledError)\n                                    and not is_anyio_cancellation(exc)\n                                ):",
+  "                                if exc_val is None or (\n                                    isinstance(exc_val, CancelledError)\n                                    and not is_anyio_cancellation(exc_val)\n                                    and not is_anyio_cancellation(exc)\n                                ):", ["R05-h"])
